@@ -125,6 +125,15 @@ def scaled(base, sx, sy):
     return register(base.embed('%s+sx=%r,sy=%r' % (base.name, float(sx), float(sy)), sx=sx, sy=sy))
 
 
+TINY = [(1.0, 2.0 ** -34), (2.0 ** -20, 2.0 ** -27), (1.0, 2.0 ** 34)]
+
+
+def tiny_family(base):
+    """Exact power-of-two re-embeddings used to expose absolute tolerances (np.isclose / allclose / fixed
+    eps) that are wrong for curves expressed in tiny or huge units."""
+    return [scaled(base, sx, sy) for sx, sy in TINY]
+
+
 def subsets_with_ends(n):
     """All index subsets of {0..n-1} containing 0 and n-1, by size then lexicographic."""
     inner = list(range(1, n - 1))
